@@ -328,6 +328,9 @@ def run_loss(ctx, case):
     ctx.close(cw_in, cw, 0, 'knill_laflamme_inner_product does not modify the code words')
     want = np.stack([cw.conj() @ apply_pauli(cw, n, {e[0][0][0]: 'XYZ'[[np.allclose(e[0][1], m) for m in (ref.SX, ref.SY, ref.SZ)].index(True)]}).T for e in errs])
     ctx.close(ip, want, 1e-12, 'knill_laflamme_inner_product = <i|E|j>')
+    ip_t = nq.qec.knill_laflamme_inner_product(torch.tensor(cw), errs)
+    ctx.close(ip_t, want, 1e-12, 'knill_laflamme_inner_product (torch code words) = <i|E|j>')
+    ctx.label(f'K={K}')
     for knd, p in (('L1', 1), ('L2', 2)):
         ref_loss = 0.0
         for M in want:
@@ -342,9 +345,39 @@ def run_loss(ctx, case):
             ctx.require(got > 1e-3, 'loss is positive when only the diagonal KL condition fails (|0..0>,|1..1> under Z)', f'{got}')
 
 
+@st.composite
+def _strat_enum(draw, tier='quick'):
+    n = draw(st.integers(2, 4))
+    Ks = draw(st.lists(st.integers(1, min(4, 2 ** n)), min_size=2, max_size=4))
+    return dict(n=n, Ks=Ks, same_n=draw(st.booleans()), prng=draw(st.integers(0, 2 ** 31)))
+
+
+def run_enum(ctx, case):
+    """weight enumerators of arbitrary subspaces, several in a row in one process (same n, different K): each call against the brute-force sum over all Paulis"""
+    nq = _nq()
+    r = ref.rng(case['prng'])
+    Ks = case['Ks']
+    ctx.note(klass='enumerator history', desc=[case['n'], Ks, case['same_n']], nontrivial=len(set(Ks)) > 1, labels=['K changes' if len(set(Ks)) > 1 else 'same K'] + [f'K={k}' for k in Ks])
+    for it, K in enumerate(Ks):
+        n = case['n'] if (case['same_n'] or it == 0) else 2 + (case['n'] + it) % 3
+        K = min(K, 2 ** n)
+        q, _ = np.linalg.qr(ref.rand_complex(r, 2 ** n, K))
+        cw = q.T.copy()
+        A, B = nq.qec.quantum_weight_enumerator(cw)
+        Ar, Br = np.zeros(n), np.zeros(n)
+        for ops in pauli_errors(n, n):
+            M = cw.conj() @ apply_pauli(cw, n, ops).T
+            Ar[len(ops) - 1] += abs(np.trace(M)) ** 2 / K ** 2
+            Br[len(ops) - 1] += np.sum(np.abs(M) ** 2) / K
+        ctx.close(A, Ar, 1e-8, 'A enumerator = sum |Tr(P E)|^2 / K^2 (any subspace, any call history)', max(1.0, Ar.max()))
+        ctx.close(B, Br, 1e-8, 'B enumerator = sum Tr(P E P E^dagger) / K (any subspace, any call history)', max(1.0, Br.max()))
+        ctx.tick()
+
+
 SUBCHECKS = [
     SubCheck('kl_loss', run_loss, strategy=_strat_loss, examples=(200, 1500)),
     SubCheck('codes', run_codes, cases=cases_codes, shards=(8, 16), doc='KL for every Pauli error below the distance; stabilizers vs listed strings; enumerators'),
     SubCheck('error_sets', run_errsets, cases=cases_errsets, shards=(4, 8)),
     SubCheck('parsers', run_parse, strategy=_strat_parse, examples=(300, 2000)),
+    SubCheck('enumerator_history', run_enum, strategy=_strat_enum, examples=(60, 600), shards=(2, 8), floors={'K changes': 0.4}),
 ]
